@@ -5,6 +5,7 @@ It calls the model functions the theorems are about — not copies.
 import PiciModel.Model.Eval
 import PiciModel.Model.Pipe
 import PiciModel.Model.Heap
+import PiciModel.Generated.Prelude
 
 open Pici
 
@@ -339,9 +340,25 @@ def handle (ds : DriverState) (line : String) : IO (String × DriverState) := do
       | some sess, some c =>
         if sess.st.attached then
           let atStep := (args[1]?.bind String.toNat?).getD 0 + sess.st.steps
-          return ("ok", { ds with session := some { sess with st := { sess.st with inbox := sess.st.inbox ++ [⟨atStep, c⟩] } } })
+          let count := (args[2]?.bind String.toNat?).getD 1
+          return ("ok", { ds with session := some { sess with st := { sess.st with inbox := sess.st.inbox ++ List.replicate count ⟨atStep, c⟩ } } })
         else return ("driver-error no umbilical", ds)
       | _, _ => return ("driver-error no session or bad hex", ds)
+    | "commandrand" =>
+      match ds.session, args[0]?.bind String.toNat? with
+      | some sess, some seed =>
+        if sess.st.attached then
+          let atStep := (args[1]?.bind String.toNat?).getD 0 + sess.st.steps
+          let count := (args[2]?.bind String.toNat?).getD 1
+          let rec gen (n : Nat) (state : UInt64) (acc : List Command) : List Command :=
+            match n with
+            | 0 => acc.reverse
+            | n + 1 =>
+              let state := state * 6364136223846793005 + 1442695040888963407
+              gen n state (⟨atStep, if (state >>> 33) &&& 1 == 1 then cs!"STEP-IN" else cs!"STEP-OVER"⟩ :: acc)
+          return ("ok", { ds with session := some { sess with st := { sess.st with inbox := sess.st.inbox ++ gen count (UInt64.ofNat seed) [] } } })
+        else return ("driver-error no umbilical", ds)
+      | _, _ => return ("driver-error no session or bad seed", ds)
     | "audit" => return ("ok", ds)
     | "h" =>
       match ds.session with
@@ -371,6 +388,16 @@ def handle (ds : DriverState) (line : String) : IO (String × DriverState) := do
           return (resp, { ds with pipe := some p })
         | _, _ => return ("driver-error no pipe or bad size", ds)
       | _ => return ("driver-error unknown pipe op", ds)
+    | "preludecheck" =>
+      -- the generated constants of Generated/Prelude.lean against what loading the current prelude.lisp binds
+      match ds.session with
+      | some sess =>
+        let bad := Prelude.table.filter fun (name, v) =>
+          match sess.st.getGlobal name cs!"prelude" with
+          | .found w => w.unmeta != v
+          | _        => true
+        return (if bad.isEmpty then s!"ok {Prelude.table.length}" else "MISMATCH " ++ " ".intercalate (bad.map fun (n, _) => String.ofList n), ds)
+      | none => return ("driver-error no session", ds)
     | "whitespace" =>
       let cps := (List.range 0x110000).filter fun n => (n < 0xD800 || n > 0xDFFF) && isWhitespace (Char.ofNat n)
       return (",".intercalate (cps.map toString), ds)
